@@ -20,7 +20,8 @@ RULE = ("each case is a fresh interpreter running a random history of 5-40 publi
         "histories including the empty one.  distinct = the sequence of operation kinds; non-trivial = the history "
         "registered at least one compound unit"
         " Histories also load pickles and JSON documents written by another process (also after a run-time Dimension.define), render dimensions / prefixes / measurements / levels, parse unit texts between two imports; text probes (Unit.parse of ambiguous spellings after all imports) join the cross-history panel."
-        " Stored data of a program with another schema (the unit of that name declared as a number there) is read before this program declares the name with another dimension.")
+        " Stored data of a program with another schema (the unit of that name declared as a number there) is read before this program declares the name with another dimension."
+        " Every binary operator is applied with numbers, prefixes and quantities on either side of a unit; cross-dimension equivalences are declared and the command line lists powers.")
 ASSUMPTIONS = [
     "the oracle uses only the dimensions captured at Unit.define; base units ({self: 1}) are axioms",
     "a worker that times out or dies makes that history inconclusive, never a violation",
